@@ -42,10 +42,10 @@ type Node struct {
 	Refs  []int `json:"refs"`  // referenced nodes, in field order (messages only)
 	Shape []int `json:"shape"` // per reference: FSingle/FList/FMap
 
-	// Features outside the Coq model (used by oracle-only streams):
-	// Expose: groups of positions in Refs (FSingle) that form a proto oneof with (j5.ext.v1.oneof).expose = true,
-	// which the reflector registers as a schema of its own; Wrapper: every field is a member of one oneof
-	// named "type" (a j5 oneof wrapper message: no label field, all references single messages).
+	// Wrapper: every field is a member of one oneof named "type" (a j5 oneof wrapper message: no label
+	// field, all references single messages); reflected as a OneofSchema whose properties are the members.
+	// Expose (outside the Coq model, oracle-only streams): groups of positions in Refs (FSingle) that form a
+	// proto oneof with (j5.ext.v1.oneof).expose = true, which the reflector registers as a schema of its own.
 	Expose  [][]int `json:"expose,omitempty"`
 	Wrapper bool    `json:"wrapper,omitempty"`
 
@@ -58,10 +58,12 @@ type Node struct {
 // Name is the model's name of node i.
 func Name(i int) int { return i + 1 }
 
-// Rich reports whether the universe uses features outside the Coq model.
+// Rich reports whether the universe uses features outside the Coq model: exposed oneofs.
+// (A oneof wrapper message registers and links its member types exactly like an object
+// with those fields, so it is inside the model.)
 func (u *Universe) Rich() bool {
 	for _, n := range u.Nodes {
-		if n.Wrapper || len(n.Expose) > 0 {
+		if len(n.Expose) > 0 {
 			return true
 		}
 	}
